@@ -218,6 +218,38 @@ CHECKS = {
             "6/C16"),
 }
 
+
+# additions of the third session: (technique suffix, text suffix) per property
+EXTRA = {
+    "C01": ("; plus every PAIR of the rows that change how a record is emitted on a fixed layout-sensitive family (incl. 3-member records with a trailing flexible array)",
+            " Option pairs (two deviations from the defaults) are enumerated exhaustively over the emission-changing rows."),
+    "C02": ("; plus exhaustive enumeration of the same records for 10 foreign target triples, decided by rustc const evaluation for the target (per-target sysroot) of assertions built from clang's constant tables; C++ empty-base shapes",
+            " Foreign targets: size / alignment / offsets as rustc computes them for T vs clang --target=T, nothing executed."),
+    "C03": ("; the sweep is also executed for big-endian and 32-bit targets under the miri interpreter against an independent integer model; the record family is also run for foreign targets (miri vs bytes cut from clang --target objects) and as C++ class templates",
+            " The cfg!(target_endian = \"big\") branches are executed (interpreted) on every explored triple; big-endian C semantics are bound through clang-built object images."),
+    "C04": ("; plus per-target symbol tables (ELF, Mach-O) of asm-labelled and C++ declarations, and same-name signatures with different calling conventions",
+            " Symbol identity is also decided for other triples from clang --target object files (undefined-symbol tables), without execution."),
+    "C05": ("; every integer kind as fixed underlying enum type; clang arguments by every route (after --, environment, target-specific variable, split) with and without the macro fallback", ""),
+    "C06": ("; records beyond 1 MiB / 16 MiB; pointer-only instantiations of union templates", ""),
+    "C07": ("; plus large graphs (9 000 records behind one typedef, about 27 000 IR items) with the deciding declaration first / middle / last", ""),
+    "C08": ("; variadic function pointers at the limit; user-excluded types (exact / regex, global / namespaced / nested, derived and hand-written impls, control types)", ""),
+    "C09": ("; counted-repetition pattern forms; records containing the definitions of named inner types with and without no-recursive-allowlist", ""),
+    "C10": ("; names mapped by name (stdint / stddef) when blocklisted; blocklist-file through .., symlinked directories and files", ""),
+    "C11": ("; collision-twin jobs (same names, unit sizes, wrapper symbols, one wrapper path, hash-ordered blocks) and every length-2 history also with one thread per generation",
+            " Histories force collisions: jobs re-use the names, sizes and paths of other jobs with different definitions."),
+    "C12": ("; the depth family also through the release and the dev-profile CLI binaries; generations on later threads", ""),
+    "C13": ("; regex values containing list separators; the single rows again with BINDGEN_EXTRA_CLANG_ARGS set; headers found only along an include path", ""),
+    "C14": ("; trigger headers for records beyond 1 MiB and for --target=i686-pc-windows-msvc (thiscall vtables, stdcall / fastcall / vectorcall)", ""),
+    "C15": ("; formatter behaviours that flood stderr; string-dominated large bindings for the real formatters", ""),
+    "C16": ("; wrappers for other target triples checked against clang --target objects (llvm-nm); in-process histories of generations with same-named static functions", ""),
+    "C17": ("; several in-memory inputs and mixes of real and in-memory inputs", ""),
+    "C18": ("; atoms that declare one link symbol under several Rust names (20-atom alphabet)", ""),
+}
+for _k, (_t, _x) in EXTRA.items():
+    if _k in CHECKS:
+        c = CHECKS[_k]
+        CHECKS[_k] = (c[0], c[1] + _t, c[2] + _x, c[3], c[4])
+
 PENDING = set()  # built but unchanged-tree findings not yet triaged: not claimed until the quick tier is clean
 for _p in PENDING:
     CHECKS.pop(_p, None)
@@ -261,7 +293,7 @@ def main():
              "serves_properties": sorted(CHECKS),
              "kind_free_text": "python driver (vplib/*) enumerating bounded spaces; executes the real implementation through "
                                "harness/vdriver (Rust, linked against /repo/bindgen with hooks) and the production CLI; "
-                               "oracles: clang 14, rustc 1.95, GNU make, reference models"},
+                               "oracles: clang 14 (host and --target=T), rustc 1.95, nightly rustc / miri with per-target sysroots (foreign targets), GNU make, reference models"},
         ],
         "checks": checks,
         "not_applicable": [{"property_id": p, "reason": NOT_YET} for p in ALL if p not in CHECKS],
